@@ -168,9 +168,10 @@ func showPieces(ps [][]byte) string {
 // ---------------------------------------------------------------- readers
 
 type reader struct {
-	name string // class suffix
-	spec string // reader spec for the model driver ("" = not modelled, predicate only)
-	run  func(r io.Reader) (val string, err error)
+	name    string // class suffix
+	spec    string // reader spec for the model driver ("" = not modelled, predicate only)
+	run     func(r io.Reader) (val string, err error)
+	counted bool // the reader returns (n, err); n is the last field of its rendered value
 	// eofIsEnd: the reader treats io.EOF as the end of its input (io.ReadAll): truncation by EOF is not detectable
 	eofIsEnd bool
 }
@@ -243,6 +244,19 @@ func clip(s string) string {
 	return s
 }
 
+// sizes up to which every case is replayed on the model (the driver switches from run_src to the linear-time
+// run_flat_t, proved equal for robust decoders, above 1500 bytes for rc lines and 300 for rf lines), every failure
+// offset is tried (rf) and every sink budget is tried (w); beyond them offsets are sampled on the implementation only
+const (
+	limitRC = 200000
+	limitW  = 6000
+)
+
+var (
+	limitRF   = 1000 // every-offset runs cost O(n^2) on both sides: 5000 in the thorough tier
+	limitSize = 1200 // generated field values / documents above this are skipped: 4000 in the thorough tier
+)
+
 var rfCombos = []struct {
 	m    int
 	tg   bool
@@ -260,6 +274,15 @@ func checkReader(o *hx.Out, cat string, rd reader, data []byte, bounds []int) {
 	}
 	nontrivial := len(data) >= 2
 	consumed := len(data) - base.left
+	if base.class == "ok" && base.val != "" {
+		// readers that return (n, err): with a nil error the count is the number of bytes taken from the stream
+		// (the count is the last field of the rendered value of every counted reader; uncounted ones never end in #)
+		if f := strings.Fields(base.val); rd.counted {
+			if n, e := strconv.Atoi(f[len(f)-1]); e != nil || n != consumed {
+				o.Fail("C09.count."+rd.name, "count %s returned with a nil error, %d bytes taken from the stream: input=%s", f[len(f)-1], consumed, clip(hx.Hex(data)))
+			}
+		}
+	}
 	same := func(kind string, pieces [][]byte, tg bool, got result) {
 		if got.line() != base.line() {
 			o.Fail("C09.fragment."+rd.name, "%s input=%s pieces=%s data+eof=%v contiguous=%s fragmented=%s", kind, clip(hx.Hex(data)), clip(showPieces(pieces)), tg, clip(base.line()), clip(got.line()))
@@ -327,7 +350,7 @@ func checkReader(o *hx.Out, cat string, rd reader, data []byte, bounds []int) {
 		for _, tg := range []bool{false, true} {
 			got := runBoth(o, rd, data, ck.pieces, tg, "eof")
 			same(ck.kind, ck.pieces, tg, got)
-			if rd.spec != "" && len(data) <= 1500 {
+			if rd.spec != "" && len(data) <= limitRC {
 				o.Case(cat+".rc."+ck.kind, nontrivial, fmt.Sprintf("rc %d eof %s %s", b01(tg), showPieces(ck.pieces), rd.spec), "rc "+got.line())
 			} else {
 				o.Eval(cat+".rc."+ck.kind, nontrivial, fmt.Sprintf("rc %d %s %s", b01(tg), clip(showPieces(ck.pieces)), rd.name))
@@ -336,7 +359,7 @@ func checkReader(o *hx.Out, cat string, rd reader, data []byte, bounds []int) {
 	}
 	// ---- failures at every offset
 	offsets := make([]int, 0, len(data)+1)
-	full := len(data) <= 300
+	full := len(data) <= limitRF
 	if full {
 		for k := 0; k <= len(data); k++ {
 			offsets = append(offsets, k)
@@ -455,6 +478,7 @@ type encoder struct {
 	// unordered: the encoder iterates a Go map; two runs may emit the entries in different orders, so the bytes
 	// that reached a failing sink are compared by length only
 	unordered bool
+	same      func(image, got []byte, whole bool) bool
 }
 
 // checkWriter returns the image and the offsets at which a new Write call started.
@@ -481,7 +505,7 @@ func checkWriter(o *hx.Out, cat string, e encoder) (image []byte, bounds []int, 
 		calls = strings.Join(parts, "/")
 	}
 	var sb strings.Builder
-	model := len(image) <= 3000
+	model := len(image) <= limitW
 	for k := 0; k <= len(image); k++ {
 		if !model && k > 64 && k < len(image)-64 && k%97 != 0 {
 			continue
@@ -491,7 +515,9 @@ func checkWriter(o *hx.Out, cat string, e encoder) (image []byte, bounds []int, 
 		pan := hx.Try(func() { err = e.run(s) })
 		prefix := bytes.Equal(s.got, image[:min(k, len(image))])
 		if e.unordered {
-			prefix = len(s.got) == min(k, len(image))
+			// a Go map was iterated: what reached the sink must be the first k bytes of the document with the
+			// entries of its compounds in SOME order (parsed against the reference run's document)
+			prefix = len(s.got) == min(k, len(image)) && e.same(image, s.got, false)
 		}
 		c := byte('X')
 		switch {
@@ -499,7 +525,7 @@ func checkWriter(o *hx.Out, cat string, e encoder) (image []byte, bounds []int, 
 			c = 'P'
 		case err != nil && prefix:
 			c = 'E'
-		case err == nil && k == len(image) && (e.unordered || bytes.Equal(s.got, image)):
+		case err == nil && k == len(image) && (bytes.Equal(s.got, image) || (e.unordered && e.same(image, s.got, true))):
 			c = 'O'
 		case err == nil:
 			c = 'S' // success although the sink failed
@@ -530,7 +556,7 @@ func checkWriter(o *hx.Out, cat string, e encoder) (image []byte, bounds []int, 
 // ---------------------------------------------------------------- VarInt / VarLong
 
 func rdVarInt() reader {
-	return reader{name: "varint", spec: "vi", run: func(r io.Reader) (string, error) {
+	return reader{name: "varint", spec: "vi", counted: true, run: func(r io.Reader) (string, error) {
 		var v pk.VarInt
 		n, err := v.ReadFrom(r)
 		if err != nil {
@@ -544,7 +570,7 @@ func rdVarInt() reader {
 func errCount(n int64) string { return fmt.Sprintf("#%d", n) }
 
 func rdVarLong() reader {
-	return reader{name: "varlong", spec: "vl", run: func(r io.Reader) (string, error) {
+	return reader{name: "varlong", spec: "vl", counted: true, run: func(r io.Reader) (string, error) {
 		var v pk.VarLong
 		n, err := v.ReadFrom(r)
 		if err != nil {
@@ -591,7 +617,7 @@ func varints(o *hx.Out) {
 // ---------------------------------------------------------------- packet fields
 
 func rdField(t Ty, old *Val) reader {
-	return reader{name: "field." + leafClass(t), spec: fmt.Sprintf("fld %s %s", t.Name(), old.Show(true)),
+	return reader{name: "field." + leafClass(t), counted: true, spec: fmt.Sprintf("fld %s %s", t.Name(), old.Show(true)),
 		run: func(r io.Reader) (string, error) {
 			dst, get := t.NewDec(old)
 			n, err := dst.ReadFrom(r)
@@ -631,7 +657,7 @@ func fields(o *hx.Out) {
 			if !ok {
 				continue
 			}
-			if len(img) > 700 {
+			if len(img) > limitSize {
 				continue
 			}
 			in := append(append([]byte{}, img...), r.Bytes(r.Pick(0, 0, 1, 3))...)
@@ -668,7 +694,7 @@ func fields(o *hx.Out) {
 			run:  func(w io.Writer) error { _, err := pk.FixedBitSet(content).WriteTo(w); return err }})
 		if ok {
 			in := append(append([]byte{}, img...), r.Bytes(r.Intn(3))...)
-			checkReader(o, "fixedbitset", reader{name: "fixedbitset", spec: "fbs " + hx.Hex(old), run: func(rr io.Reader) (string, error) {
+			checkReader(o, "fixedbitset", reader{name: "fixedbitset", counted: true, spec: "fbs " + hx.Hex(old), run: func(rr io.Reader) (string, error) {
 				f := pk.FixedBitSet(append([]byte{}, old...))
 				n, err := f.ReadFrom(rr)
 				if err != nil {
@@ -681,7 +707,7 @@ func fields(o *hx.Out) {
 			spec: func([]byte) string { return "raw " + hx.Hex(content) },
 			run:  func(w io.Writer) error { _, err := pk.PluginMessageData(content).WriteTo(w); return err }})
 		if ok {
-			checkReader(o, "plugin", reader{name: "plugin", spec: "plug", eofIsEnd: true, run: func(rr io.Reader) (string, error) {
+			checkReader(o, "plugin", reader{name: "plugin", spec: "plug", counted: true, eofIsEnd: true, run: func(rr io.Reader) (string, error) {
 				var p pk.PluginMessageData
 				n, err := p.ReadFrom(rr)
 				if err != nil {
@@ -743,6 +769,7 @@ func frames(o *hx.Out) {
 		for i := 0; i < o.N(3, 5); i++ {
 			sizes = append(sizes, r.Intn(280))
 		}
+		sizes = append(sizes, 900, 1800) // beyond the run_src sizes of the driver (300 for rf, 1500 for rc): the run_flat_t path
 		if o.Thorough() {
 			sizes = append(sizes, 5000, 70000)
 		}
@@ -803,7 +830,7 @@ func (c connOf) Write(p []byte) (int, error) { return c.w.Write(p) }
 
 func rcon(o *hx.Out) {
 	r := o.R
-	sizes := []int{0, 1, 2, 100, 255, 256}
+	sizes := []int{0, 1, 2, 100, 255, 256, 1600}
 	if o.Thorough() {
 		sizes = append(sizes, 4085, 4086)
 	}
@@ -874,7 +901,7 @@ func bitstorage(o *hx.Out) {
 			continue
 		}
 		in := append(append([]byte{}, img...), r.Bytes(r.Pick(0, 0, 5))...)
-		checkReader(o, "bitstorage", reader{name: "bitstorage", spec: "bs", run: func(rr io.Reader) (string, error) {
+		checkReader(o, "bitstorage", reader{name: "bitstorage", spec: "bs", counted: true, run: func(rr io.Reader) (string, error) {
 			dst := level.NewBitStorage(0, 0, nil)
 			n, err := dst.ReadFrom(rr)
 			if err != nil {
@@ -921,6 +948,11 @@ type outer struct {
 
 func rdNBT(file bool, target string) reader {
 	spec := fmt.Sprintf("nbt %s %s", fmtName(file), target)
+	if strings.HasPrefix(target, "st:") {
+		var k int
+		fmt.Sscanf(target, "st:%d", &k)
+		spec = fmt.Sprintf("nbt %s st:%s", fmtName(file), shapeOf(shapeTypes[k]))
+	}
 	name := "nbt." + strings.SplitN(target, ":", 2)[0]
 	if target == "struct" {
 		spec = ""
@@ -928,7 +960,7 @@ func rdNBT(file bool, target string) reader {
 	if target == "field" {
 		spec = "nbtf"
 	}
-	return reader{name: name, spec: spec, run: func(rd io.Reader) (string, error) {
+	return reader{name: name, spec: spec, counted: target == "field", run: func(rd io.Reader) (string, error) {
 		if target == "field" {
 			var v any
 			n, err := pk.NBTField{V: &v, AllowUnknownFields: true}.ReadFrom(rd)
@@ -994,6 +1026,14 @@ func rdNBT(file bool, target string) reader {
 				v.Dyn, v.Any = nil, nil
 				fmt.Fprintf(&sb, "%+v|%s|%s", v, anyb.String(), dyn.String())
 			}
+		case strings.HasPrefix(target, "st:"):
+			var k int
+			fmt.Sscanf(target, "st:%d", &k)
+			p := reflect.New(shapeTypes[k])
+			nm, err = d.Decode(p.Interface())
+			if err == nil {
+				canon(&sb, p.Elem())
+			}
 		case strings.HasPrefix(target, "ty:"):
 			p := reflect.New(c01x.GoType(target[3:]))
 			nm, err = d.Decode(p.Interface())
@@ -1035,7 +1075,7 @@ func nbtDocs(o *hx.Out) {
 		file := r.Bool()
 		name := c01x.GenKey(r)
 		doc := t.Doc(file, name)
-		if len(doc) > 600 {
+		if len(doc) > limitSize {
 			continue
 		}
 		in := append(append([]byte{}, doc...), r.Bytes(r.Pick(0, 0, 1, 4))...)
@@ -1079,6 +1119,24 @@ func nbtDocs(o *hx.Out) {
 			}
 		}
 	}
+	// ---- struct / pointer / array / RawMessage-field destinations (the shapes of Model/C03.v): documents aimed at
+	// the shape (duplicate and case-folded keys, unknown fields, occasional misfits)
+	for i := 0; i < o.N(3, 6)*len(shapeTypes); i++ {
+		k := i % len(shapeTypes)
+		t := fitTree(r, shapeTypes[k], 3)
+		file := r.Bool()
+		name := c01x.GenKey(r)
+		doc := t.Doc(file, name)
+		if len(doc) > 600 {
+			continue
+		}
+		in := append(append([]byte{}, doc...), r.Bytes(r.Pick(0, 0, 2))...)
+		hdr := 1
+		if file {
+			hdr = 3 + len(name)
+		}
+		checkReader(o, "nbt.st", rdNBT(file, fmt.Sprintf("st:%d", k)), in, []int{1, hdr})
+	}
 	// ---- typed struct destination: documents written by the encoder from struct values
 	for i := 0; i < o.N(10, 6); i++ {
 		v := genOuter(r)
@@ -1100,8 +1158,11 @@ func nbtDocs(o *hx.Out) {
 	for i := 0; i < o.N(60, 8); i++ {
 		var goval any
 		unordered := false
+		marked := false
 		if i%4 == 3 {
 			goval = genOuterE(r)
+			unordered = true // its Any field holds a two-entry map
+			marked = true
 		} else {
 			g := c01x.GenGV(r, 1+r.Intn(4))
 			img := g.Image()
@@ -1116,44 +1177,206 @@ func nbtDocs(o *hx.Out) {
 		if len(name) > 40 {
 			name = name[:40]
 		}
-		checkWriter(o, "w.nbt", encoder{name: "nbt", unordered: unordered,
-			spec: func(image []byte) string {
+		specOf := func(file bool) func(image []byte) string {
+			return func(image []byte) string {
 				t, nm, rest, err := c01x.ParseDoc(image, file)
 				if err != nil || len(rest) != 0 {
 					o.Fail("C09.writer.nbt", "the encoder's output is not a well-formed document: %s", clip(hx.Hex(image)))
 					return ""
 				}
 				var tok strings.Builder
-				t.Tokens(&tok)
+				if marked {
+					wTokens(&tok, t)
+				} else {
+					t.Tokens(&tok)
+				}
 				return fmt.Sprintf("nbt %s %s%s", fmtName(file), hx.Hex(nm), tok.String())
-			},
+			}
+		}
+		checkWriter(o, "w.nbt", encoder{name: "nbt", unordered: unordered, same: sameDocModuloOrder(file),
+			spec: specOf(file),
 			run: func(w io.Writer) error {
 				enc := nbt.NewEncoder(w)
 				enc.NetworkFormat(!file)
 				return enc.Encode(goval, string(name))
 			}})
-		if !file && i%5 == 0 {
-			checkWriter(o, "w.nbtfield", encoder{name: "nbtfield", unordered: unordered,
-				run: func(w io.Writer) error { _, err := pk.NBT(goval).WriteTo(w); return err }})
+		if i%5 == 0 {
+			// pk.NBT(v).WriteTo: network format through a counting writer - the same Write calls
+			checkWriter(o, "w.nbtfield", encoder{name: "nbtfield", unordered: unordered, same: sameDocModuloOrder(false),
+				spec: specOf(false),
+				run:  func(w io.Writer) error { _, err := pk.NBT(goval).WriteTo(w); return err }})
 		}
+	}
+	// pk.NBT(nil): a lone TAG_End
+	checkWriter(o, "w.nbtfield", encoder{name: "nbtfield", spec: func([]byte) string { return "raw 00" },
+		run: func(w io.Writer) error { _, err := pk.NBT(nil).WriteTo(w); return err }})
+}
+
+// wTokens renders the parsed output of genOuterE in the driver's tree syntax, marking what a Marshaler wrote:
+// R = nbt.RawMessage (one Write of its Data), Y = *dynbt.Value (keys "raw", "dyn", elements of "rawl")
+func wTokens(sb *strings.Builder, t *c01x.Tree) {
+	switch t.Kind {
+	case c01x.List:
+		fmt.Fprintf(sb, " [ %d %d", t.Eid, len(t.List))
+		for _, e := range t.List {
+			wTokens(sb, e)
+		}
+	case c01x.Compound:
+		fmt.Fprintf(sb, " { %d", len(t.List))
+		for i, e := range t.List {
+			sb.WriteString(" " + hx.Hex(t.Keys[i]))
+			switch string(t.Keys[i]) {
+			case "raw":
+				sb.WriteString(" R")
+				e.Tokens(sb)
+			case "dyn":
+				sb.WriteString(" Y")
+				e.Tokens(sb)
+			case "rawl":
+				fmt.Fprintf(sb, " [ %d %d", e.Eid, len(e.List))
+				for _, x := range e.List {
+					sb.WriteString(" R")
+					x.Tokens(sb)
+				}
+			default:
+				wTokens(sb, e)
+			}
+		}
+	default:
+		t.Tokens(sb)
 	}
 }
 
-// outerE: the same shape without the Marshaler fields (RawMessage, *dynbt.Value write their own bytes in one call
-// and are outside the tree universe of the writer model)
+// matchTree: is b an encoding of t's payload - or, when b ends early, the beginning of one - in which the entries
+// of every compound may come in any order?  Returns the bytes used, whether the payload is complete, and the verdict.
+func matchTree(t *c01x.Tree, b []byte) (int, bool, bool) {
+	switch t.Kind {
+	case c01x.List:
+		n := len(t.List)
+		hdr := []byte{t.Eid, byte(n >> 24), byte(n >> 16), byte(n >> 8), byte(n)}
+		if len(b) < 5 {
+			return len(b), false, bytes.Equal(b, hdr[:len(b)])
+		}
+		if !bytes.Equal(b[:5], hdr) {
+			return 0, false, false
+		}
+		off := 5
+		for _, e := range t.List {
+			k, done, ok := matchTree(e, b[off:])
+			if !ok {
+				return off, false, false
+			}
+			off += k
+			if !done {
+				return off, false, true
+			}
+		}
+		return off, true, true
+	case c01x.Compound:
+		used := make([]bool, len(t.List))
+		hdrOf := func(i int) []byte {
+			k := t.Keys[i]
+			return append([]byte{t.List[i].Kind, byte(len(k) >> 8), byte(len(k))}, k...)
+		}
+		off := 0
+		for {
+			if off >= len(b) {
+				return off, false, true
+			}
+			if b[off] == 0 {
+				for _, u := range used {
+					if !u {
+						return off, false, false
+					}
+				}
+				return off + 1, true, true
+			}
+			found := -1
+			partial := false
+			for i := range t.List {
+				if used[i] {
+					continue
+				}
+				h := hdrOf(i)
+				if len(b)-off >= len(h) && bytes.Equal(b[off:off+len(h)], h) {
+					found = i
+					break
+				}
+				if len(b)-off < len(h) && bytes.Equal(b[off:], h[:len(b)-off]) {
+					partial = true
+				}
+			}
+			if found < 0 {
+				return len(b), false, partial
+			}
+			used[found] = true
+			off += len(hdrOf(found))
+			k, done, ok := matchTree(t.List[found], b[off:])
+			if !ok {
+				return off, false, false
+			}
+			off += k
+			if !done {
+				return off, false, true
+			}
+		}
+	}
+	var pb bytes.Buffer
+	t.Payload(&pb)
+	enc := pb.Bytes()
+	if len(b) >= len(enc) {
+		return len(enc), true, bytes.Equal(b[:len(enc)], enc)
+	}
+	return len(b), false, bytes.Equal(b, enc[:len(b)])
+}
+
+// sameDocModuloOrder compares what reached a sink with the reference document up to the order of compound entries
+func sameDocModuloOrder(file bool) func(image, got []byte, whole bool) bool {
+	return func(image, got []byte, whole bool) bool {
+		t, name, rest, err := c01x.ParseDoc(image, file)
+		if err != nil || len(rest) != 0 {
+			return false
+		}
+		hdr := []byte{t.Kind}
+		if file {
+			hdr = append(hdr, byte(len(name)>>8), byte(len(name)))
+			hdr = append(hdr, name...)
+		}
+		if len(got) < len(hdr) {
+			return !whole && bytes.Equal(got, hdr[:len(got)])
+		}
+		if !bytes.Equal(got[:len(hdr)], hdr) {
+			return false
+		}
+		n, done, ok := matchTree(t, got[len(hdr):])
+		if !ok {
+			return false
+		}
+		if whole {
+			return done && len(hdr)+n == len(got)
+		}
+		return done && len(hdr)+n == len(got) || !done
+	}
+}
+
+// outerE: the encoder-side struct.  Its RawMessage / *dynbt.Value fields write their own bytes (WRaw / dyn_w in the
+// writer model); the keys raw, dyn, rawl mark them for wTokens.
 type outerE struct {
-	A   int8      `nbt:"a"`
-	B   int16     `nbt:"b"`
-	F   float32   `nbt:"f"`
-	D   float64   `nbt:"d"`
-	In  inner     `nbt:"in"`
-	Ins []inner   `nbt:"ins"`
-	By  []byte    `nbt:"by"`
-	Is  []int32   `nbt:"is"`
-	Any any       `nbt:"any"`
-	U   uint16    `nbt:"u"`
-	Bo  bool      `nbt:"bo"`
-	Ls  [][]int16 `nbt:"ls"`
+	Raw  nbt.RawMessage   `nbt:"raw"`
+	Dyn  *dynbt.Value     `nbt:"dyn"`
+	RawL []nbt.RawMessage `nbt:"rawl"`
+	A    int8             `nbt:"a"`
+	B    int16            `nbt:"b"`
+	F    float32          `nbt:"f"`
+	D    float64          `nbt:"d"`
+	In   inner            `nbt:"in"`
+	Ins  []inner          `nbt:"ins"`
+	By   []byte           `nbt:"by"`
+	Is   []int32          `nbt:"is"`
+	Any  any              `nbt:"any"`
+	U    uint16           `nbt:"u"`
+	Bo   bool             `nbt:"bo"`
+	Ls   [][]int16        `nbt:"ls"`
 }
 
 func genOuterE(r *hx.Rng) outerE {
@@ -1162,6 +1385,24 @@ func genOuterE(r *hx.Rng) outerE {
 	for i := r.Intn(3); i > 0; i-- {
 		e.Ls = append(e.Ls, []int16{int16(r.Next()), 7}[:r.Intn(3)])
 	}
+	rawOf := func(t *c01x.Tree) nbt.RawMessage {
+		var pb bytes.Buffer
+		t.Payload(&pb)
+		return nbt.RawMessage{Type: t.Kind, Data: pb.Bytes()}
+	}
+	budget := 25
+	e.Raw = rawOf(c01x.Gen(r, 0, 3, &budget, false))
+	dt := c01x.Gen(r, 0, 3, &budget, false)
+	e.Dyn = new(dynbt.Value)
+	dd := nbt.NewDecoder(bytes.NewReader(dt.Doc(false, nil)))
+	dd.NetworkFormat(true)
+	if _, err := dd.Decode(e.Dyn); err != nil {
+		panic(err)
+	}
+	for i := r.Intn(3); i > 0; i-- { // compound elements only: lists of Byte/Int/Long RawMessages are mis-typed as arrays (C02 finding)
+		e.RawL = append(e.RawL, rawOf(c01x.Gen(r, c01x.Compound, 2, &budget, false)))
+	}
+	e.Any = map[string]any{"k": int16(r.Next()), "raw": rawOf(c01x.Gen(r, 0, 2, &budget, false)), "z": "s"}
 	return e
 }
 
@@ -1216,6 +1457,9 @@ func readByteShapes(o *hx.Out) {
 func main() {
 	o := hx.Open()
 	defer o.Close()
+	if o.Thorough() {
+		limitRF, limitSize = 5000, 4000
+	}
 	readByteShapes(o)
 	varints(o)
 	fields(o)
